@@ -278,19 +278,26 @@ fn fallible_actions(cx: &mut Ctx, g: &Grammar) {
     let rule = "C04.V5";
     cx.rule(rule, "the grammar-level rules are enforced by fallible actions that return Err under a condition over the stated bindings: a bare `*` with nothing after it (ParameterListStarArgs), a parenthesised lone starred expression and a parenthesised `**` expression (Atom), and `as _` in a pattern (AsPattern); each error's location is a position inside the construct");
     cx.floor(rule, 4);
-    let sites: [(&str, &str, &str, &str); 4] = [
-        ("ParameterListStarArgs", "ifva.is_none()&&kwonlyargs.is_empty()&&kwarg.is_none(){Err(LexicalError{error:LexicalErrorType::OtherError(\"named arguments must follow bare *\".to_string()),location,})?}", "bare-star", "bare `*` must be followed by a named parameter"),
-        ("Atom", "ifleft.is_none()&&right.is_empty()&&trailing_comma.is_none(){ifmid.is_starred_expr(){Err(LexicalError{error:LexicalErrorType::OtherError(\"cannot use starred expression here\".to_string()),location:mid.start(),})?}Ok(mid)}", "paren-starred", "`(*x)` is rejected"),
-        ("Atom", "Err(LexicalError{error:LexicalErrorType::OtherError(\"cannot use double starred expression here\".to_string()),location,}.into())", "paren-double-starred", "`(**x)` is rejected"),
-        ("AsPattern", "ifname.as_str()==\"_\"{Err(LexicalError{error:LexicalErrorType::OtherError(\"cannot use '_' as a target\".to_string()),location,})?}", "as-underscore", "`as _` is rejected"),
+    // (nonterminal, decisions that must hold on the error path, message, location text, key, description); the error
+    // may leave through `Err(..)?`, `return Err(..)` or as the value of a branch
+    let sites: [(&str, &[&str], &str, &str, &str, &str); 4] = [
+        ("ParameterListStarArgs", &["va.is_none()&&kwonlyargs.is_empty()&&kwarg.is_none()"], "named arguments must follow bare *", "location", "bare-star", "bare `*` must be followed by a named parameter"),
+        ("Atom", &["left.is_none()&&right.is_empty()&&trailing_comma.is_none()", "mid.is_starred_expr()"], "cannot use starred expression here", "location:mid.start()", "paren-starred", "`(*x)` is rejected"),
+        ("Atom", &[], "cannot use double starred expression here", "location", "paren-double-starred", "`(**x)` is rejected"),
+        ("AsPattern", &["name.as_str()==\"_\""], "cannot use '_' as a target", "location", "as-underscore", "`as _` is rejected"),
     ];
-    for (dname, frag, key, what) in sites {
+    for (dname, conds, msg, locfrag, key, what) in sites {
         let mut found = false;
         if let Some(d) = g.def(dname) {
             for a in &d.alts {
                 let Some(act) = &a.action else { continue };
                 let Some(e) = &act.expr else { continue };
-                if sm::tsc(e).contains(frag) {
+                let blk = syn::Block { brace_token: Default::default(), stmts: vec![syn::Stmt::Expr(e.clone(), None)] };
+                let ex = sm::exits(&blk);
+                let hit = ex.iter().any(|x| {
+                    x.result.starts_with("Err(") && x.result.contains(&format!("\"{}\"", msg)) && x.result.contains(locfrag) && conds.iter().all(|c| x.conds.iter().any(|xc| xc == c || xc == &format!("{}~true", c)))
+                });
+                if hit {
                     found = true;
                     if act.fallible {
                         cx.ok(rule, &format!("{}: {}", alt_key(d, a), what));
